@@ -10,6 +10,7 @@ import (
 	"github.com/massnetorg/mass-core/consensus/forks"
 	"github.com/massnetorg/mass-core/txscript"
 	"github.com/massnetorg/mass-core/wire"
+	"massnet.org/mass-wallet/masswallet"
 	"vh/env"
 	"vh/simnode"
 )
@@ -337,6 +338,15 @@ func (w *World) Apply(ev string) (enabled bool, err error) {
 		return true, w.Deliver()
 	case "i", "k", "z", "n":
 		return w.ApplyTask(ev)
+	case "b":
+		// b.<n>: heights per rescan batch from here on (hook variable read through the source
+		// overlay; without the overlay this has no effect)
+		n, _ := strconv.Atoi(p[1])
+		if n <= 0 {
+			n = 1000
+		}
+		masswallet.VerifImportBatch = uint64(n)
+		return true, nil
 	case "y":
 		if len(w.N.Queue) != 0 {
 			return false, nil // relays are only explored on a caught-up wallet (DESIGN §5 C09)
